@@ -3403,8 +3403,9 @@ tar_atol_base_n(const char *p, size_t char_cnt, int base)
 				return maxval; /* Truncate on overflow. */
 			}
 			l = (l * base) + digit;
+			if (--char_cnt == 0)
+				break;
 			digit = *++p - '0';
-			char_cnt--;
 		}
 	}
 	return (sign < 0) ? -l : l;
